@@ -22,6 +22,13 @@ const pkgPrefix = "github.com/dapr/kit/events/ratelimiting.(*coalescing)."
 
 var dumpBuf = make([]byte, 1<<20)
 
+var blockedStates = map[string]bool{
+	"select": true, "chan send": true, "chan receive": true, "select (no cases)": true,
+	"chan send (nil chan)": true, "chan receive (nil chan)": true,
+	"sync.Mutex.Lock": true, "sync.RWMutex.RLock": true, "sync.RWMutex.Lock": true,
+	"sync.WaitGroup.Wait": true, "sync.Cond.Wait": true, "semacquire": true,
+}
+
 func dumpGoroutines() []gInfo {
 	n := runtime.Stack(dumpBuf, true)
 	for n == len(dumpBuf) {
@@ -78,7 +85,9 @@ func dumpGoroutines() []gInfo {
 		default:
 			continue
 		}
-		blocked := !(strings.HasPrefix(st, "running") || strings.HasPrefix(st, "runnable") || strings.HasPrefix(st, "syscall"))
+		// Only waits that another goroutine of the limiter (or the harness) must end count as
+		// blocked. "GC assist wait", "preempted", "runnable" … end by themselves.
+		blocked := blockedStates[st]
 		out = append(out, gInfo{ID: id, State: st, Kind: kind, Blocked: blocked})
 	}
 	sort.Slice(out, func(i, j int) bool { return out[i].ID < out[j].ID })
